@@ -188,11 +188,33 @@ func relayerHistory(w *tracew.Writer, seed int64, run, depth int, period, timeou
 		return err
 	}
 	var pool []*savedVote
+	// withheld votes: complete, genuinely signed messages that were never submitted. An adversary keeps them and presents
+	// one, unchanged, whenever sequence and proposer coincide again in a LATER epoch (single-use is also "never across epochs").
+	type withheldVote struct {
+		tx           *RelTx
+		seq, epoch   uint64
+		proposer     int
+		tip          uint64
+		presentedNow bool
+	}
+	var withheld []*withheldVote
+	voteRate := []int{3, 3, 1, 0}[s.R.Intn(4)] // some histories are quiet: the sequence stands still across elections
 	kinds := []string{"NewBlockHashes", "NewPubkey", "NewConsolidation"}
 	for b := 0; b < depth; b++ {
 		vc, err := s.voteCtx()
 		if err != nil {
 			return err
+		}
+		{ // sign one vote per block and withhold it
+			signers := []int{vc.Proposer}
+			marks := []int{}
+			for i, v := range vc.Voters {
+				marks = append(marks, i)
+				signers = append(signers, v)
+			}
+			if wtx, err := s.VotedTx(vc, kinds[1+s.R.Intn(2)], VoteSpec{Marks: marks, Signers: signers, Mut: "none"}, 0); err == nil {
+				withheld = append(withheld, &withheldVote{tx: wtx, seq: vc.Seq, epoch: vc.Epoch, proposer: vc.Proposer, tip: vc.Tip})
+			}
 		}
 		st, _ := project.Relayer(c)
 		plan := &BlockPlan{DT: []int64{0, 1, 1, 1, 2, 3}[s.R.Intn(6)], Proposer: 0}
@@ -220,11 +242,33 @@ func relayerHistory(w *tracew.Writer, seed int64, run, depth int, period, timeou
 		// relayer transactions by the current proposer
 		off := 0
 		cur := *vc
+		for _, wv := range withheld { // a withheld vote from an earlier epoch whose sequence and proposer fit again
+			if wv.seq == vc.Seq && wv.proposer == vc.Proposer && wv.epoch != vc.Epoch && !wv.presentedNow && off < 2 && s.R.Intn(2) == 0 {
+				prop := s.member(vc.Proposer)
+				_, accSeq, _ := s.C.Account(prop.Addr)
+				sq := accSeq + uint64(off)
+				bz, err := s.C.SignTx(prop.Priv, []sdk.Msg{wv.tx.Msg}, sim.SignOpts{Seq: &sq})
+				if err != nil {
+					return err
+				}
+				f := Ev{}
+				for k, x := range wv.tx.F {
+					f[k] = x
+				}
+				f["withheldSince"] = clip(wv.epoch)
+				plan.Txs = append(plan.Txs, &RelTx{Bytes: bz, Ev: "vote", F: f, Sig: wv.tx.Sig, Vid: wv.tx.Vid, Votes: wv.tx.Votes})
+				off++
+				wv.presentedNow = true
+			}
+		}
+		for _, wv := range withheld {
+			wv.presentedNow = false
+		}
 		ntx := s.R.Intn(5)
 		for k := 0; k < ntx; k++ {
 			var tx *RelTx
 			switch x := s.R.Intn(10); {
-			case x < 3: // genuine vote by a sufficient subset (or by everybody)
+			case x < voteRate: // genuine vote by a sufficient subset (or by everybody)
 				marks := []int{}
 				signers := []int{cur.Proposer}
 				need := (2*(len(cur.Voters)+1)+2)/3 - 1
